@@ -9,7 +9,7 @@ from vlib.sess import Bench
 PROPERTY = "C12"
 LEVEL = "exploration"
 RULE = (
-    "Hypothesis scenarios in virtual time on a real logged-on endpoint (both roles) with the real heartbeat_timer_task and "
+    "Hypothesis scenarios in virtual time on a real logged-on endpoint (both roles; on its first connection, on its second, and on a second connection before which the application tried the public send_test_req() while disconnected and was refused) with the real heartbeat_timer_task and "
     "reader task: HeartBtInt hb in [1, 120] s; phase of the last inbound frame relative to the 1 s watchdog tick in [0, 1); "
     "peer script in {silent from t0; periodic traffic with period 0.3/0.6/0.9/1.1/1.7 x hb (valid Heartbeats or application "
     "messages); burst then silence; answers every TestRequest after a delay in [0, 2.2 hb] with the right / a wrong / a "
